@@ -1413,7 +1413,9 @@ def _rolling_max_or_min_1d(
     want_min = not want_max
 
     # Track rolling max/min and its position in circular buffers for each group
-    current_best = np.full(ngroups, -np.inf if want_max else np.inf)
+    # same dtype as the output/buffers, so that int64-viewed timestamps are not rounded through float64;
+    # the initial value is never read (the first non-null value of a group always replaces it)
+    current_best = np.full(ngroups, null_value)
     pos_of_current_best = np.zeros(ngroups, dtype=np.int16)
     group_buffers = np.full((ngroups, window), null_value)
     group_buffer_pos = np.zeros(ngroups, dtype=np.int16)
